@@ -9,10 +9,14 @@ NOTE_COMMON = ("Trusted base: CPython as interpreter of the non-symbolic part; p
 CLAIMS = {
  'C02': dict(sec='5/C02', text="Kernel contracts of MH, pCN, MALA (abstract vectors: every dimension, every target, every scale/noise/uniform draw) and CWMH (dimension 1..3) in both interfaces: accept iff log u <= min(0, rho) with the spec MH log-ratio for the proposal the code formed, state/caches on accept and reject, NaN/-inf proposals never accepted; pCN prior-reversibility with real Normal/Gaussian priors of symbolic mean/std; lemma L-MH (detailed balance). All obligations discharged by the solver on every run.",
              note="Invariance follows from detailed balance (cited). User proposals flagged symmetric are assumed even. Normal/Uniform .sample() callee contracts are assumed here and discharged under C05. CWMH is bounded in the dimension (P-box)."),
+ 'C03': dict(sec='5/C03', text="gradient(x) == d logd/dx for SmoothedLaplace, Cauchy, InverseGamma, Beta, Uniform, Lognormal (scalar and vector parameters, n<=3), every Gaussian parameterisation x input form (n=2,3), GMRF/CMRF (C20 jobs), likelihoods through matrix / function-pair / Jacobian / direction-Jacobian models and the posterior sum rule, by differentiating the term produced by the SAME object's logd; refusal (every path raises) for families without analytic gradient and for non-identity geometries; finite-difference option; NaN outside the support.",
+             note="The symbolic differentiator is trusted and cross-checked numerically (central differences) on every run. A refusal (exception) is an admissible outcome per the property. PDE-based models and geometries with their own gradient are covered under C12."),
  'C04': dict(sec='5/C04', text="logpdf of Normal, Laplace, SmoothedLaplace, Cauchy, Gamma, InverseGamma, Beta, Uniform, Lognormal equals the documented density for scalar-broadcast, vector and list parameters (all real parameter values and evaluation points at dimensions 1..3), -inf strictly outside the support, cdf = product of coordinate cdfs, logd-logpdf free of x; Gaussian in all four parameterisations x scalar/vector/diagonal/sparse-diagonal/dense inputs on both sides of the sparse switch at n=2(3) against the documented N(mean, Sigma).",
              note="Normalisation of the textbook densities is cited, not proved. scipy.stats laws are replaced by their textbook formulas at the arguments passed. Dense input above the sparse switch (scipy eigh path) and Lognormal at n>1 are bounded stand-ins (numeric twin), labelled B. MRF priors are covered under C20."),
  'C16': dict(sec='5/C16', text="CGLS/PCGLS: loop invariants r=b-Ax, s=P^-T(A^T r - shift x), gamma=|s|^2 on the mechanically cut loop of the real solve() over abstract operators (every dimension, every iteration count), stopping flag = documented rule, exit => relative residual bound of the shifted preconditioned normal equations, matrix and function operator forms, x0 not mutated; FISTA exit contract (returned point is the prox-gradient image of the previous iterate within abstol; momentum update); ProjectBox/ProjectNonnegative/ProximalL1 against the variational inequality / KKT system per coordinate.",
              note="Convergence of CG/FISTA in finitely many iterations is numerical-analysis theory (not decided). LM and the SciPy wrappers are not yet under contract."),
+ 'C20': dict(sec='5/C20', text="For every N in 2..6 (quick) / 2..12 (thorough) in 1-D (also with grid spacing) and NxN up to 3 (5) in 2-D, every boundary condition and order: D @ x equals the ghost-node stencil for symbolic x; 2-D operator equals the Kronecker stacking; P == D^T D entry-wise (exact rationals), x^T P x == |D x|^2 (hence PSD), exact rational rank and the null space implied by the BC; GMRF rank / logdet / sqrtprec against its precision; GMRF/LMRF/CMRF logpdf equals the documented density of the finite differences of the shifted variable; GMRF/CMRF gradients.",
+             note="The N range is part of the property. GMRF logdet is compared with the pseudo-determinant numerically (closed floating-point computation). Constant sparse matrices built by the real code are converted entry-exactly to rationals where they meet symbolic operands."),
 }
 checks = []
 for pid, c in sorted(CLAIMS.items()):
